@@ -53,6 +53,9 @@ int64_t carquet_column_read_batch(
         return 0;
     }
 
+    /* Values returned by the previous call are no longer guaranteed */
+    carquet_column_release_retired_pages(reader);
+
     if (reader->values_remaining <= 0) {
         return 0;
     }
